@@ -378,4 +378,7 @@ func (p *Pool) Put(x any) {
 	vsched.SyncPoint()
 	p.items = append(p.items, x)
 	vsched.Release(&p.obj)
+	// a point right AFTER handing the object back: code that keeps using a pooled object after
+	// Put has no later synchronisation operation at which another thread could be scheduled
+	vsched.SyncPoint()
 }
